@@ -345,8 +345,7 @@ def forms_coord(c, u, minimal):
             out[name] = {"exc": _exc(e), "msg": str(e)[:200]}
     do("simple", lambda: DataCoordinate.from_simple(c.to_simple(minimal=minimal), universe=u))
     do("json", lambda: DataCoordinate.from_json(c.to_json(minimal=minimal), universe=u))
-    if not minimal:
-        do("pickle", lambda: pickle.loads(pickle.dumps(c)))
+    do("pickle", lambda: pickle.loads(pickle.dumps(c)))     # pickle does not depend on the mode
     return out
 
 
@@ -361,6 +360,51 @@ def obs_dt(orig, got):
                    and got.storageClass_name == orig.storageClass_name and got._parentStorageClassName == orig._parentStorageClassName
                    and got.isCalibration() == orig.isCalibration() and got.component() == orig.component())
     return o
+
+
+CLS = {"_RequiredTupleDataCoordinate": "ClsRequired", "_FullTupleDataCoordinate": "ClsFull",
+       "_ExpandedTupleDataCoordinate": "ClsExpanded"}
+
+
+def red_group(g):
+    """DimensionGroup.__getnewargs__: (universe, names._seq, False)"""
+    a = g.__getnewargs__()
+    return list(a[1])
+
+
+def red_record(rec):
+    """DimensionRecord.__reduce__: (_reconstructDimensionRecord, (definition, {slot: value}))"""
+    _, (definition, mapping) = rec.__reduce__()[:2]
+    return {"def": definition.name, "fields": [[n, abs_fval(v)] for n, v in mapping.items()]}
+
+
+def red_coord(c):
+    """What DataCoordinate.__reduce__ hands to pickle, inner objects reduced as well."""
+    fn, args = c.__reduce__()[:2]
+    recs = None
+    if len(args) > 2:
+        recs = [[k, None if r is None else red_record(r)] for k, r in args[2].items()]
+    return {"cls": CLS.get(getattr(fn, "__name__", ""), "Other:" + repr(fn)[:60]), "names": red_group(args[0]),
+            "vals": list(args[1]), "recs": recs}
+
+
+def red_dt(t):
+    """DatasetType.__reduce__: (_unpickle_via_factory, (cls, (name, dimensions, sc, psc), {isCalibration}))"""
+    _, (cls, a, kw) = t.__reduce__()[:2]
+    return {"name": a[0], "names": red_group(a[1]), "sc": a[2], "psc": a[3], "calib": bool(kw.get("isCalibration", False))}
+
+
+def red_ref(r):
+    """DatasetRef.__reduce__: (_unpickle, (datasetType, dataId, id, run, datastore_records))"""
+    _, a = r.__reduce__()[:2]
+    return {"dt": red_dt(a[0]), "coord": red_coord(a[1]), "id": str(a[2]), "run": a[3]}
+
+
+def _try(fn):
+    try:
+        return fn()
+    except Exception as e:  # noqa: BLE001
+        return {"exc": _exc(e), "msg": str(e)[:200]}
 
 
 class FakeRegistry:
@@ -452,6 +496,8 @@ def serial_cases(payload):
                     case["ctx"] = abs_ctx(gen, [c.dimensions])
                     case["wire"] = _wire(c.to_json(minimal=minimal))
                     case["forms"] = forms_coord(c, u, minimal)
+                    case["reduce"] = _try(lambda: red_coord(c))
+                    case["pickle_state"] = _try(lambda: obs_coord(c, pickle.loads(pickle.dumps(c)), list(c.dimensions.elements)))
                     case["orig"] = {"full": c.hasFull(), "recs": c.hasRecords(), "empty": not c.dimensions,
                                     "states": [[k, rec_state(c, k)] for k in c.dimensions.elements] if c.hasRecords() else [[k, 2] for k in c.dimensions.elements]}
                     case["feat"] = f"{state}:{'min' if minimal else 'full'}"
@@ -463,6 +509,7 @@ def serial_cases(payload):
                     case["inst"] = abs_dt(t)
                     case["ctx"] = abs_ctx(gen, [t.dimensions], types=[t])
                     case["wire"] = _wire(t.to_json(minimal=minimal))
+                    case["reduce"] = _try(lambda: red_dt(t))
                     forms = {}
                     for k, fn in (("simple", lambda: DatasetType.from_simple(t.to_simple(minimal=minimal), universe=u, registry=reg if minimal else None)),
                                   ("json", lambda: DatasetType.from_json(t.to_json(minimal=minimal), universe=u, registry=reg if minimal else None)),
@@ -483,6 +530,8 @@ def serial_cases(payload):
                     case["ctx"] = abs_ctx(gen, [r.datasetType.dimensions], types=[r.datasetType], refs=[parent])
                     case["wire"] = _wire(r.to_json(minimal=minimal))
                     elems = list(r.dataId.dimensions.elements)
+                    case["reduce"] = _try(lambda: red_ref(r))
+                    case["pickle_state"] = _try(lambda: obs_coord(r.dataId, pickle.loads(pickle.dumps(r)).dataId, elems))
                     forms = {}
                     for k, fn in (("simple", lambda: DatasetRef.from_simple(r.to_simple(minimal=minimal), universe=u, registry=reg if minimal else None)),
                                   ("json", lambda: DatasetRef.from_json(r.to_json(minimal=minimal), universe=u, registry=reg if minimal else None)),
